@@ -61,6 +61,8 @@
 (*    its descriptors are not demanded (unless force-recursive), but       *)
 (*    referrers and digest tags of it and of the manifests below it are;   *)
 (*  - the fast-check option stops at any manifest the target already has;  *)
+(*  - with ImageWithReferrerTgt the referrers (and everything below them)  *)
+(*    belong to the referrer target repository: names qualified "r/";      *)
 (*  - the client-made referrers fall-back index (tag sha256-<hex>) is the  *)
 (*    registry-side listing of referrers, not content of the image: it may *)
 (*    follow the manifest it lists, also after the requested tag.          *)
@@ -72,6 +74,8 @@ VARIABLES hdr,       \* header facts (record), see CopyTrace
           edges,     \* set of records [p, c, role, psel, hosted]
           refs,      \* set of records [r, s, match]
           dtags,     \* set of records [t, on, to, fb]: source tag t is a digest tag of manifest `on`, resolving to `to`
+          alias,     \* set of <<q, n, pfx>>: q = pfx \o n names object n in a second target repository (the referrer
+                     \* target of ImageWithReferrerTgt, pfx "r/"); objects of the image's own target have no entry
           init0,     \* target store before the copy
           cur,       \* latest observed target store
           written,   \* manifests written by this copy so far
@@ -81,7 +85,7 @@ VARIABLES hdr,       \* header facts (record), see CopyTrace
           nBlobReq, nManPut, nWrites,
           res,       \* "" | "ok" | "err" | "dead"
           bad
-pvars == <<hdr, mkind, edges, refs, dtags, init0, cur, written, tagMoved, gets, commits,
+pvars == <<hdr, mkind, edges, refs, dtags, alias, init0, cur, written, tagMoved, gets, commits,
            nBlobReq, nManPut, nWrites, res, bad>>
 
 Range(s) == {s[i] : i \in 1..Len(s)}
@@ -99,6 +103,11 @@ Root == hdr.root
 Tagged == hdr.tagged = 1
 On(f) == f = 1
 FaultFree == hdr.faultfree = 1
+\* repository-qualified names: Base(q) is the object, Pfx(q) the repository prefix ("" = the image's target)
+Base(q) == IF \E a \in alias : a[1] = q THEN (CHOOSE a \in alias : a[1] = q)[2] ELSE q
+Pfx(q) == IF \E a \in alias : a[1] = q THEN (CHOOSE a \in alias : a[1] = q)[3] ELSE ""
+\* where the referrers of something in repository pfx go
+RefPfx(pfx) == IF hdr.reftgt = 1 THEN "r/" ELSE pfx
 
 \* ---------------------------------------------------------------- children
 \* descriptors that have to be at the target before the manifest (C04)
@@ -106,39 +115,44 @@ Kids(m) == {e.c : e \in {e \in edges : e.p = m /\ e.role # "ext" /\ e.psel = 1}}
 \* descriptors the copy is asked to bring along (C03)
 SelKids(m) == {e.c : e \in {e \in edges : e.p = m /\ e.psel = 1 /\
                                          (e.role # "ext" \/ (On(hdr.inclext) /\ e.hosted = 1))}}
+KidsQ(q) == {Pfx(q) \o c : c \in Kids(Base(q))}
 RefsOf(m) == {r.r : r \in {r \in refs : r.s = m /\ r.match = 1}}
 \* digest tags of m that the copy is asked to bring along
 DTagsOf(m) == {d \in dtags : d.on = m /\ ~(d.fb = 1 /\ On(hdr.referrers))}
 
 \* the target already holds this manifest, equal to the source
-PreEq(st0, n) == IF n = Root /\ Tagged THEN TagOf(st0, "T") = Root /\ Root \in st0.m
-                 ELSE n \in st0.m
+PreEq(st0, q) == IF q = Root /\ Tagged THEN TagOf(st0, "T") = Root /\ Root \in st0.m
+                 ELSE q \in st0.m
 
 \* ------------------------------------------------------- required closure
-\* Walk items <<node, demanded>>.  trust = FALSE computes the full closure.
+\* Walk items <<qualified name, demanded>>.  trust = FALSE computes the full closure.
 Succ(st0, trust, it) ==
-  LET n == it[1]
+  LET q == it[1]
+      n == Base(q)
+      px == Pfx(q)
       d == it[2]
-      pre == trust /\ PreEq(st0, n)
+      pre == trust /\ PreEq(st0, q)
       cd == d /\ ~(pre /\ ~On(hdr.force))
   IN IF n \notin Mans THEN {}
      ELSE IF On(hdr.fast) /\ pre THEN {}
-     ELSE {<<c, cd>> : c \in SelKids(n)}
-          \cup (IF On(hdr.referrers) THEN {<<r, TRUE>> : r \in RefsOf(n)} ELSE {})
-          \cup (IF On(hdr.dtags) THEN {<<dt.to, TRUE>> : dt \in DTagsOf(n)} ELSE {})
+     ELSE {<<px \o c, cd>> : c \in SelKids(n)}
+          \cup (IF On(hdr.referrers) THEN {<<RefPfx(px) \o r, TRUE>> : r \in RefsOf(n)} ELSE {})
+          \cup (IF On(hdr.dtags) THEN {<<px \o dt.to, TRUE>> : dt \in DTagsOf(n)} ELSE {})
 RECURSIVE Fix(_, _, _)
 Fix(st0, trust, X) == LET Y == X \cup UNION {Succ(st0, trust, it) : it \in X}
                       IN IF Y = X THEN X ELSE Fix(st0, trust, Y)
 Walk(st0, trust) == Fix(st0, trust, {<<Root, TRUE>>})
 Req(st0, trust) == {it[1] : it \in {i \in Walk(st0, trust) : i[2]}}
+\* required digest tags: <<qualified tag, qualified manifest>>
 ReqDT(st0, trust) == IF On(hdr.dtags)
-                     THEN UNION {DTagsOf(it[1]) : it \in {i \in Walk(st0, trust) : i[1] \in Mans /\
+                     THEN UNION {{<<Pfx(it[1]) \o d.t, Pfx(it[1]) \o d.to>> : d \in DTagsOf(Base(it[1]))} :
+                                 it \in {i \in Walk(st0, trust) : Base(i[1]) \in Mans /\
                                         ~(On(hdr.fast) /\ trust /\ PreEq(st0, i[1]))}}
                      ELSE {}
 Complete(st, st0, trust) ==
   /\ Tagged => TagOf(st, "T") = Root
   /\ Req(st0, trust) \subseteq Present(st)
-  /\ \A d \in ReqDT(st0, trust) : TagOf(st, d.t) = d.to
+  /\ \A d \in ReqDT(st0, trust) : TagOf(st, d[1]) = d[2]
 \* the identical image (with everything the options ask for) is at the target already
 Identical == Complete(init0, init0, FALSE)
 
@@ -159,31 +173,33 @@ First(checks) ==
 \* C04 obligations on an observed target state st with the manifests w written so far;
 \* contentWrite: this observation shows a content write (not a referrers fall-back index)
 StoreChecks(st, w, contentWrite) ==
-  << <<"C04", \E m \in w : ~(Kids(m) \subseteq Present(st)), "C04:child-missing">>,
+  << <<"C04", \E m \in w : ~(KidsQ(m) \subseteq Present(st)), "C04:child-missing">>,
      <<"C04", Tagged /\ TagOf(st, "T") \notin {TagOf(init0, "T"), Root}, "C04:tag-other">>,
      <<"C04", tagMoved /\ contentWrite, "C04:write-after-tag">> >>
 
 \* ------------------------------------------------------------- actions
-PInit == /\ hdr = [root |-> ""] /\ mkind = {} /\ edges = {} /\ refs = {} /\ dtags = {}
+PInit == /\ hdr = [root |-> ""] /\ mkind = {} /\ edges = {} /\ refs = {} /\ dtags = {} /\ alias = {}
          /\ init0 = EmptyStore /\ cur = EmptyStore /\ written = {} /\ tagMoved = FALSE
          /\ gets = <<>> /\ commits = <<>> /\ nBlobReq = 0 /\ nManPut = 0 /\ nWrites = 0
          /\ res = "" /\ bad = ""
-PReset(h) == /\ hdr' = h /\ mkind' = {} /\ edges' = {} /\ refs' = {} /\ dtags' = {}
+PReset(h) == /\ hdr' = h /\ mkind' = {} /\ edges' = {} /\ refs' = {} /\ dtags' = {} /\ alias' = {}
              /\ init0' = EmptyStore /\ cur' = EmptyStore /\ written' = {} /\ tagMoved' = FALSE
              /\ gets' = <<>> /\ commits' = <<>> /\ nBlobReq' = 0 /\ nManPut' = 0 /\ nWrites' = 0
              /\ res' = "" /\ bad' = ""
 
 Same(vs) == UNCHANGED vs
 PMan(n, k) == mkind' = mkind \cup {<<n, k>>} /\
-              Same(<<hdr, edges, refs, dtags, init0, cur, written, tagMoved, gets, commits, nBlobReq, nManPut, nWrites, res, bad>>)
+              Same(<<hdr, edges, refs, dtags, alias, init0, cur, written, tagMoved, gets, commits, nBlobReq, nManPut, nWrites, res, bad>>)
 PEdge(e) == edges' = edges \cup {e} /\
-            Same(<<hdr, mkind, refs, dtags, init0, cur, written, tagMoved, gets, commits, nBlobReq, nManPut, nWrites, res, bad>>)
+            Same(<<hdr, mkind, refs, dtags, alias, init0, cur, written, tagMoved, gets, commits, nBlobReq, nManPut, nWrites, res, bad>>)
 PReferrer(r) == refs' = refs \cup {r} /\
-                Same(<<hdr, mkind, edges, dtags, init0, cur, written, tagMoved, gets, commits, nBlobReq, nManPut, nWrites, res, bad>>)
+                Same(<<hdr, mkind, edges, dtags, alias, init0, cur, written, tagMoved, gets, commits, nBlobReq, nManPut, nWrites, res, bad>>)
 PDTag(d) == dtags' = dtags \cup {d} /\
-            Same(<<hdr, mkind, edges, refs, init0, cur, written, tagMoved, gets, commits, nBlobReq, nManPut, nWrites, res, bad>>)
+            Same(<<hdr, mkind, edges, refs, alias, init0, cur, written, tagMoved, gets, commits, nBlobReq, nManPut, nWrites, res, bad>>)
+PAlias(q, n, pfx) == alias' = alias \cup {<<q, n, pfx>>} /\
+                     Same(<<hdr, mkind, edges, refs, dtags, init0, cur, written, tagMoved, gets, commits, nBlobReq, nManPut, nWrites, res, bad>>)
 PInitStore(st) == init0' = st /\ cur' = st /\
-                  Same(<<hdr, mkind, edges, refs, dtags, written, tagMoved, gets, commits, nBlobReq, nManPut, nWrites, res, bad>>)
+                  Same(<<hdr, mkind, edges, refs, dtags, alias, written, tagMoved, gets, commits, nBlobReq, nManPut, nWrites, res, bad>>)
 
 BlobClasses == {"blob_head", "blob_get", "blob_delete", "upload_post", "mount_post", "upload_put",
                 "upload_patch", "upload_get", "upload_delete"}
@@ -197,7 +213,7 @@ PReq(side, class, n, code, data) ==
   /\ gets' = IF class = "blob_get" /\ OnSrc(side) /\ code \in {200, 206} THEN Append(gets, n) ELSE gets
   /\ nBlobReq' = nBlobReq + (IF class \in BlobClasses THEN 1 ELSE 0)
   /\ nWrites' = nWrites + (IF class \in WriteClasses /\ OnTgt(side) THEN 1 ELSE 0)
-  /\ Same(<<hdr, mkind, edges, refs, dtags, init0, cur, written, tagMoved, commits, nManPut, res, bad>>)
+  /\ Same(<<hdr, mkind, edges, refs, dtags, alias, init0, cur, written, tagMoved, commits, nManPut, res, bad>>)
 
 \* a request that wrote to the target; s is the raw target store right after it.
 \* pn: for a manifest PUT the name of the body's digest; fb: PUT to a referrers fall-back tag
@@ -216,7 +232,7 @@ PWrite(side, class, n, code, data, pn, fb, istag, s) ==
      /\ nManPut' = nManPut + (IF class = "manifest_put" /\ code = 201 /\ fb = 0 THEN 1 ELSE 0)
      /\ nWrites' = nWrites + 1
      /\ bad' = First(StoreChecks(s, w, content))
-     /\ Same(<<hdr, mkind, edges, refs, dtags, init0, res>>)
+     /\ Same(<<hdr, mkind, edges, refs, dtags, alias, init0, res>>)
 
 \* an observation of a layout target (no requests to see): s is what the directory holds
 PSnap(s) ==
@@ -226,7 +242,7 @@ PSnap(s) ==
      /\ written' = w
      /\ tagMoved' = (tagMoved \/ Moved(s))
      /\ bad' = First(StoreChecks(s, w, new # {}))
-     /\ Same(<<hdr, mkind, edges, refs, dtags, init0, gets, commits, nBlobReq, nManPut, nWrites, res>>)
+     /\ Same(<<hdr, mkind, edges, refs, dtags, alias, init0, gets, commits, nBlobReq, nManPut, nWrites, res>>)
 
 C14Checks(s) ==
   LET bl == Range(gets) \cup Range(commits)
@@ -257,7 +273,7 @@ PResult(ok, s) ==
                         <<"C03", ok = 1 /\ FaultFree /\ ~Complete(s, init0, TRUE), "C03:incomplete">>,
                         <<"C04", ok = 0 /\ Tagged /\ TagOf(s, "T") \notin {TagOf(init0, "T"), Root},
                           "C04:tag-moved-on-failure">> >>)
-     /\ Same(<<hdr, mkind, edges, refs, dtags, init0, gets, commits, nBlobReq, nManPut, nWrites>>)
+     /\ Same(<<hdr, mkind, edges, refs, dtags, alias, init0, gets, commits, nBlobReq, nManPut, nWrites>>)
 
 \* everything the copy started has ended (requests of goroutines it did not wait for included)
 PFinal(s) ==
@@ -268,9 +284,10 @@ PFinal(s) ==
      /\ tagMoved' = (tagMoved \/ Moved(s))
      /\ bad' = First(StoreChecks(s, w, new # {}) \o
                      << <<"C03", res = "ok" /\ FaultFree /\ ~Complete(s, init0, TRUE), "C03:incomplete">> >> \o
-                     (IF res = "ok" /\ FaultFree THEN C14Checks(s)
+                     (IF hdr.reftgt = 1 THEN <<>>          \* (two target repositories: C14's counters are per repository)
+                      ELSE IF res = "ok" /\ FaultFree THEN C14Checks(s)
                       ELSE IF res = "ok" /\ Transient THEN C14TChecks(s) ELSE <<>>))
-     /\ Same(<<hdr, mkind, edges, refs, dtags, init0, gets, commits, nBlobReq, nManPut, nWrites, res>>)
+     /\ Same(<<hdr, mkind, edges, refs, dtags, alias, init0, gets, commits, nBlobReq, nManPut, nWrites, res>>)
 
 \* the process died here; s is what it leaves behind
 PDeath(s) ==
@@ -281,7 +298,7 @@ PDeath(s) ==
      /\ written' = w
      /\ tagMoved' = (tagMoved \/ Moved(s))
      /\ bad' = First(StoreChecks(s, w, new # {}))
-     /\ Same(<<hdr, mkind, edges, refs, dtags, init0, gets, commits, nBlobReq, nManPut, nWrites>>)
+     /\ Same(<<hdr, mkind, edges, refs, dtags, alias, init0, gets, commits, nBlobReq, nManPut, nWrites>>)
 
 PNote == UNCHANGED pvars
 Ok == bad = ""
